@@ -36,6 +36,8 @@ class Gen:
             k = r.choice(kinds)
             o = self.pick_obj(k)
             if k == "fd":
+                if r.random() < 0.12:
+                    return "fd_reg %d 0 0 %d" % (o, r.choice([1, 2]))     # error band only
                 if r.random() < 0.2:
                     # register_try, often without any handler yet (they are installed later)
                     hs = (0, 0, 0) if r.random() < 0.5 else (r.choice([0, 1]), r.choice([0, 1]), 0)
@@ -50,6 +52,8 @@ class Gen:
         o = self.pick_obj(k)
         if k == "fd":
             c = r.random()
+            if c < 0.04:
+                return "fd_reg %d 0 0 %d" % (o, r.choice([1, 2]))     # error band only
             if c < 0.22:
                 return "fd_reg %d %d %d %d" % (o, r.choice([0, 1, 1, 2]), r.choice([0, 0, 1, 2]), r.choice([0, 0, 1, 2]))
             if c < 0.30:
@@ -174,6 +178,36 @@ class Gen:
                     for _ in range(r.randint(0, 3)):
                         g = self.pick_obj("fd")
                         R.append("R fd %d %d %d fd_set %d %d %d" % (f, b, r.choice([1, 2, 3, 0]), g, r.randint(1, 3), r.choice([0, 0, 1, 2])))
+        elif mode == "erronly" and self.n["fd"] and self.n["tm"] >= 2:
+            # descriptors watched for hang-up / error only (no input or output interest),
+            # unregistered or re-purposed later, then the peer goes away
+            maxwait = 20
+            for f in range(1, self.n["fd"] + 1):
+                c = r.random()
+                if c < 0.5:
+                    L.append("S fd_reg %d 0 0 %d" % (f, r.choice([1, 2])))
+                elif c < 0.8:
+                    L.append("S fd_reg %d %d 0 1" % (f, r.choice([1, 2])))
+                    R.append("R tm 1 0 1 fd_set %d 1 0" % f)
+                else:
+                    L.append("S fd_reg %d 1 0 0" % f)
+            L.append("S tm_reg 1 1 0 %d" % r.choice([1000, 1000000]))
+            L.append("S tm_reg 2 1 %d 0" % r.choice([1, 2]))
+            L.append("S tm_reg 3 1 %d 0" % r.choice([8, 9]))
+            for f in range(1, self.n["fd"] + 1):
+                c = r.random()
+                if c < 0.6:
+                    R.append("R tm 2 0 1 fd_unreg %d" % f)
+                    if r.random() < 0.4:
+                        R.append("R tm 2 0 1 fd_swapos %d" % f)
+                        R.append("R tm 2 0 1 fd_reg %d 1 0 0" % f)
+                elif c < 0.8:
+                    R.append("R tm 2 0 1 fd_set %d 3 0" % f)
+                R.append("R fd %d 3 0 fd_unreg %d" % (f, f))
+                R.append("R fd %d 1 0 drain %d" % (f, f))
+            for q in range(3, 7):
+                if r.random() < 0.7:
+                    L.append("E %d pclose %d" % (q, self.pick_obj("fd")))
         elif mode == "regchurn" and self.n["fd"] >= 2:
             # the back end's per-descriptor bookkeeping (poll array slots, epoll
             # notify list) under register / unregister / re-register churn, with
